@@ -184,10 +184,15 @@ func runFamily(p AtomPlan, record bool, st *atomStats) []atomViolation {
 			mu.Unlock()
 		}
 	}
+	// every goroutine owns ONE key buffer for all its prefix arguments and is the owner of the slices its
+	// consumers are handed (owned.go)
+	cls := make([]*caller, len(readers)+1)
 	wg.Add(1)
 	go func() {
 		defer wg.Done()
 		defer guard("mutator")
+		cl := newCaller("mutator")
+		cls[len(readers)] = cl
 		ready.Add(1)
 		for ready.Load() < total {
 			runtime.Gosched()
@@ -199,7 +204,7 @@ func runFamily(p AtomPlan, record bool, st *atomStats) []atomViolation {
 		if p.Mut == "clear" {
 			merr = mutView.Clear()
 		} else {
-			merr = mutView.DeletePrefix([]byte("f"))
+			merr = cl.DeletePrefix(mutView, "f")
 		}
 		mret = now()
 	}()
@@ -208,6 +213,8 @@ func runFamily(p AtomPlan, record bool, st *atomStats) []atomViolation {
 		go func(ri int, r rd) {
 			defer wg.Done()
 			defer guard(r.name)
+			cl := newCaller(r.name)
+			cls[ri] = cl
 			var out []famIter
 			ready.Add(1)
 			for ready.Load() < total {
@@ -221,8 +228,8 @@ func runFamily(p AtomPlan, record bool, st *atomStats) []atomViolation {
 				}
 				last := ""
 				seen := 0
-				consume := func(k, v []byte) bool {
-					full := r.realm + string(k)
+				consume := func(k, v string) bool {
+					full := r.realm + k
 					if seen > 0 && (it.back && full >= last || !it.back && full <= last) && it.bad == "" {
 						it.bad = fmt.Sprintf("order: %q delivered after %q", full, last)
 					}
@@ -232,7 +239,7 @@ func runFamily(p AtomPlan, record bool, st *atomStats) []atomViolation {
 					case strings.HasPrefix(full, baseRealm+"f"):
 						it.fam++
 						if !it.keysOnly {
-							if i, err := strconv.Atoi(full[len(baseRealm)+1:]); err != nil || string(v) != "v"+strconv.Itoa(i) {
+							if i, err := strconv.Atoi(full[len(baseRealm)+1:]); err != nil || v != "v"+strconv.Itoa(i) {
 								if it.bad == "" {
 									it.bad = fmt.Sprintf("value: %q = %q", full, v)
 								}
@@ -251,9 +258,9 @@ func runFamily(p AtomPlan, record bool, st *atomStats) []atomViolation {
 				var err error
 				it.call = now()
 				if it.keysOnly {
-					err = r.v.IterateKeys([]byte(r.prefix), func(k []byte) bool { return consume(k, nil) }, dir)
+					err = cl.IterateKeys(r.v, r.prefix, func(k string) bool { return consume(k, "") }, dir)
 				} else {
-					err = r.v.Iterate([]byte(r.prefix), consume, dir)
+					err = cl.Iterate(r.v, r.prefix, consume, dir)
 				}
 				it.ret = now()
 				if err != nil && it.bad == "" {
@@ -270,6 +277,7 @@ func runFamily(p AtomPlan, record bool, st *atomStats) []atomViolation {
 		}(ri, r)
 	}
 	waitRound(&wg, record)
+	own.absorb(map[string]any{"atomplan": p}, cls...)
 	var vs []atomViolation
 	name := map[string]string{"deleteprefix": "DeletePrefix", "clear": "Clear"}[p.Mut]
 	for _, s := range panics {
@@ -394,15 +402,15 @@ func setupSnap(p AtomPlan) *snapRound {
 	return sr
 }
 
-func (sr *snapRound) apply(o seqOp) error {
+func (sr *snapRound) apply(cl *caller, o seqOp) error {
 	k := sr.wPrefix + o.k
 	if sr.stripK {
 		k = o.k[1:]
 	}
 	if o.del {
-		return sr.wView.Delete([]byte(k))
+		return cl.Delete(sr.wView, k)
 	}
-	return sr.wView.Set([]byte(k), []byte(o.v))
+	return cl.Set(sr.wView, k, o.v)
 }
 
 func fmtList(l []kvmodel.KV) string {
@@ -448,6 +456,8 @@ func runGated(p AtomPlan, st *atomStats) []atomViolation {
 	var pan string
 	done := make(chan struct{})
 	parked := false
+	icl, wcl := newCaller("iterating goroutine"), newCaller("writer")
+	defer own.absorb(map[string]any{"atomplan": p}, icl, wcl)
 	go func() {
 		defer close(done)
 		defer func() {
@@ -459,8 +469,8 @@ func runGated(p AtomPlan, st *atomStats) []atomViolation {
 		if p.Back {
 			dir = kvstore.IterDirectionBackward
 		}
-		iterErr = sr.iterView.Iterate(nil, func(k, v []byte) bool {
-			got = append(got, kvmodel.KV{K: string(k), V: string(v)})
+		iterErr = icl.Iterate(sr.iterView, "", func(k, v string) bool {
+			got = append(got, kvmodel.KV{K: k, V: v})
 			if len(got) == p.Gate+1 && !parked {
 				parked = true
 				close(entered)
@@ -476,7 +486,7 @@ func runGated(p AtomPlan, st *atomStats) []atomViolation {
 	var vs []atomViolation
 	if parked {
 		for _, o := range sr.ops {
-			if err := sr.apply(o); err != nil {
+			if err := sr.apply(wcl, o); err != nil {
 				vs = append(vs, atomViolation{"snapshot/unexpected-error", "writer failed while an Iterate consumer was parked: " + err.Error()})
 				break
 			}
@@ -523,6 +533,7 @@ func runFree(p AtomPlan, record bool, st *atomStats) []atomViolation {
 	}
 	var ready atomic.Int32
 	const nReaders = 3
+	cls := make([]*caller, nReaders+1)
 	wg.Add(1)
 	go func() {
 		defer wg.Done()
@@ -531,6 +542,8 @@ func runFree(p AtomPlan, record bool, st *atomStats) []atomViolation {
 				add(atomViolation{"snapshot/panic", fmt.Sprint("writer panicked: ", r)})
 			}
 		}()
+		cl := newCaller("writer")
+		cls[nReaders] = cl
 		ready.Add(1)
 		for ready.Load() < nReaders+1 {
 			runtime.Gosched()
@@ -539,7 +552,7 @@ func runFree(p AtomPlan, record bool, st *atomStats) []atomViolation {
 			if record {
 				started.Store(int32(i + 1))
 			}
-			if err := sr.apply(o); err != nil {
+			if err := sr.apply(cl, o); err != nil {
 				add(atomViolation{"snapshot/unexpected-error", "writer: " + err.Error()})
 				return
 			}
@@ -561,6 +574,8 @@ func runFree(p AtomPlan, record bool, st *atomStats) []atomViolation {
 					add(atomViolation{"snapshot/panic", fmt.Sprint("iteration panicked: ", x)})
 				}
 			}()
+			cl := newCaller("reader " + strconv.Itoa(r))
+			cls[r] = cl
 			ready.Add(1)
 			for ready.Load() < nReaders+1 {
 				runtime.Gosched()
@@ -579,14 +594,14 @@ func runFree(p AtomPlan, record bool, st *atomStats) []atomViolation {
 				}
 				var err error
 				if keysOnly {
-					err = sr.iterView.IterateKeys(nil, func(k []byte) bool {
-						got = append(got, kvmodel.KV{K: string(k)})
+					err = cl.IterateKeys(sr.iterView, "", func(k string) bool {
+						got = append(got, kvmodel.KV{K: k})
 						runtime.Gosched()
 						return true
 					}, dir)
 				} else {
-					err = sr.iterView.Iterate(nil, func(k, v []byte) bool {
-						got = append(got, kvmodel.KV{K: string(k), V: string(v)})
+					err = cl.Iterate(sr.iterView, "", func(k, v string) bool {
+						got = append(got, kvmodel.KV{K: k, V: v})
 						runtime.Gosched() // slow consumer
 						return true
 					}, dir)
@@ -619,6 +634,7 @@ func runFree(p AtomPlan, record bool, st *atomStats) []atomViolation {
 		}(r)
 	}
 	waitRound(&wg, record)
+	own.absorb(map[string]any{"atomplan": p}, cls...)
 	st.freeChecks += int(checks.Load())
 	st.freeStrict += int(strict.Load())
 	return vs
